@@ -1,5 +1,7 @@
 import AlgopyVerif.Proofs.Drivers
 import AlgopyVerif.Proofs.DriversSeed
+import AlgopyVerif.Proofs.LineDeriv
+import AlgopyVerif.Proofs.Jet
 /-!
 # C09 — forward-mode derivative drivers are exact
 
@@ -15,8 +17,12 @@ Seed tables (`init_hessian`'s triangular layout `a(n) = n(n+1)/2`, `k(n,m) = (n+
 (and every `v`); the instances `N = 1 … 8` are also evaluated by the kernel.  `init_tensor /
 extract_tensor` rest on the Γ identity of C15.
 
-That `c₂` along `x + t v` of a *program* is `½ vᵀ∇²f v` is the composition of the per-operation Taylor
-theorems (C01, C02, C07); it is checked on the implementation for polynomial programs against exact
+Program level (`program_*` below): for **every** `F : ℝᴺ → ℝ` that is `C²` at `x` (the composite function of
+the program), the Taylor coefficients of `t ↦ F(x + t v)` are `c₁(v) = ∇F(x)·v` and `c₂(v) = ½ vᵀ∇²F(x) v` with
+the symmetric Hessian `∂²F/∂x_n∂x_m` (`fderiv ℝ (fderiv ℝ F) x e_n e_m`), so the three extraction formulas return
+the true Jacobian / Hessian entries and Hessian-vector products.  That the UTP evaluation of the program on
+the seeded input computes the jet of `t ↦ F(x + t v)` is the `JetOf` closure of C01 (`utp_second_coefficient`
+states the composition).  It is also checked on the implementation for polynomial programs against exact
 analytic derivatives and for smooth programs against arbitrary-direction Taylor propagation.
 -/
 open AV
@@ -31,6 +37,58 @@ theorem hessian_offdiagonal (H : Fin N → Fin N → K) (hH : ∀ i j, H i j = H
 
 theorem hess_vec_entry (H : Fin N → Fin N → K) (hH : ∀ i j, H i j = H j i) (v : Fin N → K) (n : Fin N) :
     -quad H (Pi.single n 1) + quad H (v + Pi.single n 1) - quad H v = ∑ j, H n j * v j := quad_hess_vec H hH v n
+
+/-! ## program level: the coefficients along `x + t v` are the gradient and Hessian forms -/
+section program
+variable {M : ℕ}
+
+/-- second Taylor coefficient of the program's composite function along direction `v` -/
+noncomputable def c2 (F : (Fin M → ℝ) → ℝ) (x v : Fin M → ℝ) : ℝ := tc (fun t => F (line x v t)) 2
+noncomputable def c1 (F : (Fin M → ℝ) → ℝ) (x v : Fin M → ℝ) : ℝ := tc (fun t => F (line x v t)) 1
+
+/-- `extract_jacobian`: first coefficient along `e_n` is `∂F/∂x_n` -/
+theorem program_jacobian (F : (Fin M → ℝ) → ℝ) (x : Fin M → ℝ) (hF : DifferentiableAt ℝ F x) (n : Fin M) :
+    c1 F x (Pi.single n 1) = gradAt F x n := tc_line_one F x _ hF
+
+/-- `extract_jac_vec`: first coefficient along `v` is `∇F(x)·v` -/
+theorem program_jac_vec (F : (Fin M → ℝ) → ℝ) (x v : Fin M → ℝ) (hF : DifferentiableAt ℝ F x) :
+    c1 F x v = ∑ i, gradAt F x i * v i := by
+  unfold c1; rw [tc_line_one F x v hF, fderiv_eq_grad]
+
+/-- `c₂(v) = ½ vᵀ∇²F(x) v` -/
+theorem program_c2 (F : (Fin M → ℝ) → ℝ) (x v : Fin M → ℝ) (hF : ContDiffAt ℝ 2 F x) :
+    c2 F x v = quad (hessAt F x) v := tc_line_two_quad F x v hF
+
+/-- `extract_hessian`, diagonal -/
+theorem program_hessian_diag (F : (Fin M → ℝ) → ℝ) (x : Fin M → ℝ) (hF : ContDiffAt ℝ 2 F x) (n : Fin M) :
+    2 * c2 F x (Pi.single n 1) = hessAt F x n n := by
+  rw [program_c2 F x _ hF]; exact quad_diag _ n
+
+/-- `extract_hessian`, off-diagonal -/
+theorem program_hessian_offdiag (F : (Fin M → ℝ) → ℝ) (x : Fin M → ℝ) (hF : ContDiffAt ℝ 2 F x) (n m : Fin M) :
+    c2 F x (Pi.single n 1 + Pi.single m 1) - c2 F x (Pi.single n 1) - c2 F x (Pi.single m 1) = hessAt F x n m := by
+  rw [program_c2 F x _ hF, program_c2 F x _ hF, program_c2 F x _ hF]
+  exact quad_offdiag _ (hessAt_symm F x hF) n m
+
+/-- `extract_hess_vec` -/
+theorem program_hess_vec (F : (Fin M → ℝ) → ℝ) (x v : Fin M → ℝ) (hF : ContDiffAt ℝ 2 F x) (n : Fin M) :
+    -c2 F x (Pi.single n 1) + c2 F x (v + Pi.single n 1) - c2 F x v = ∑ j, hessAt F x n j * v j := by
+  rw [program_c2 F x _ hF, program_c2 F x _ hF, program_c2 F x _ hF]
+  exact quad_hess_vec _ (hessAt_symm F x hF) v n
+
+/-- composition with C01: a UTP coefficient list that is the jet of `t ↦ F(x + t v)` (what the kernels
+compute, by the `JetOf` closure) carries `½ vᵀ∇²F v` at order 2 and `∇F·v` at order 1 -/
+theorem utp_second_coefficient (F : (Fin M → ℝ) → ℝ) (x v : Fin M → ℝ) (hF : ContDiffAt ℝ 2 F x)
+    (l : List ℝ) (hl : 2 < l.length) (hj : JetOf l (fun t => F (line x v t))) :
+    co l 2 = quad (hessAt F x) v ∧ co l 1 = ∑ i, gradAt F x i * v i := by
+  refine ⟨?_, ?_⟩
+  · rw [hj.coeff 2 hl]; exact tc_line_two_quad F x v hF
+  · rw [hj.coeff 1 (by omega), tc_line_one F x v (hF.differentiableAt (by norm_num)), fderiv_eq_grad]
+
+/-- non-vacuity of the hypothesis: a polynomial program is `C²` everywhere -/
+example (x : Fin 2 → ℝ) : ContDiffAt ℝ 2 (fun y : Fin 2 → ℝ => y 0 * y 1 + y 0 ^ 3) x := by
+  fun_prop
+end program
 
 /-- `init_hessian`'s direction table for every `N`: `N(N+1)/2` directions, `e_n` at `a(n)`, `e_n + e_m` at `k(n,m)` -/
 theorem hessian_seed_table_all (N : ℕ) :
